@@ -219,24 +219,17 @@ def r6(ctx: Ctx) -> None:
     for cls in ["Literal", "Term"]:
         for d, (opcls, _) in OPS.items():
             f = ctx.func(PB, f"{cls}.{d}")
-            rets = [n for n in walk_own(f.node) if isinstance(n, ast.Return)]
-            other = f.params()[0]
-            ok = False
-            val = rets[0].value if len(rets) == 1 else None
-            if isinstance(val, ast.Name):     # returned through a local: its only definition
-                dfs = [n.value for n in walk_own(f.node) if isinstance(n, ast.Assign) and len(n.targets) == 1 and isinstance(n.targets[0], ast.Name)
-                       and n.targets[0].id == val.id]
-                val = dfs[0] if len(dfs) == 1 else None
-            if isinstance(val, ast.Compare) and len(val.ops) == 1:
-                cmp_ = val
-                lhs, rhs, want_op = cmp_.left, cmp_.comparators[0], opcls
-                if "self" in {n.id for n in ast.walk(rhs) if isinstance(n, ast.Name)}:
-                    # 'b <= a' for 'a >= b': Ineq normalises both to the same inequality (table checked by R5)
-                    lhs, rhs, want_op = rhs, lhs, REVERSED[opcls]
-                left_names = {n.id for n in ast.walk(lhs) if isinstance(n, ast.Name)}
-                right_names = {n.id for n in ast.walk(rhs) if isinstance(n, ast.Name)}
-                ok = isinstance(cmp_.ops[0], want_op) and "self" in left_names and other not in left_names and other in right_names and "self" not in right_names \
-                    and "Expr" in left_names
+            # the method returns (Expr() + self) <its own operator> (Expr() + other): compared in the normal form, where the
+            # reversed spelling 'b <= a' of 'a >= b', a value passing through locals and a helper / operator table that does
+            # the comparison all have one form; the lifting to Expr is checked on the calls the body makes
+            from framelint.canon import Canon as _Canon
+            lift = ("c", ("g", "Expr"), (), ())
+            lhs = (to_poly(lift) + to_poly(("self",))).to_s()
+            rhs = (to_poly(lift) + to_poly(("p", 0))).to_s()
+            want = (("ret", _Canon.compare(opcls.__name__, lhs, rhs)),)
+            cf = canon_function(f, ctx.model)
+            lifted = sum(1 for n in ast.walk(f.node) if isinstance(n, ast.Call) and call_name(n) == "Expr") >= 2
+            ok = cf == want and lifted
             ctx.site(f.where, f"{cls}.{d} compares Expr()+self with the operator of its name")
             if not ok:
                 ctx.report(f.where, f"overload-op {cls}.{d}", f"{cls}.{d} does not return (Expr() + self) <its own operator> other", lineno=f.node.lineno)
